@@ -9,6 +9,7 @@ import z3
 from pyvc import smt, views
 from pyvc.smt import I
 from pyvc.values import *          # noqa
+from pyvc.values import eqv, veq   # noqa
 from pyvc.engine import NdArrV, RngV, SliceSpecV
 from pyvc.contract import *        # noqa
 from pyvc.views import View, AbsView, AX
@@ -114,7 +115,7 @@ def _rs_iter_variant(with_key, interleaved):
         idx = cell['f'](k)
         exp = TupleV([KeyV(d.key(idx)), d.val(idx)]) if with_key else d.val(idx)
         return [('C12:the-permutation-of-this-iteration-is-still-the-one-drawn-at-its-start', z3.BoolVal(bool(same))),
-                ('C12:yield-is-input[perm[k]]', z3.And(S.out_n == k, veq(value, exp) if veq(value, exp) is not None else smt.F))]
+                ('C12:yield-is-input[perm[k]]', z3.And(S.out_n == k, eqv(value, exp)))]
 
     def post(S, o):
         fl = F(S)
